@@ -348,6 +348,7 @@ def witness_of(lines, badline, clause, fam):
                 tabs.add(lines[j]['t'])
             j -= 1
         w['table'] = ln['t']
+        w['buffered_bytes'] = ln['a']
         w['tables_at_that_point'] = ','.join(sorted(tabs))
         w['late_write'] = late_write
         w['late_close'] = late_close
